@@ -19,7 +19,8 @@ RULE = ("outcome sequences x label encodings (ints other than 0/1, strings, bool
         "Non-trivial: the canonical trace contains a warning or drift; distinct by content.")
 SHARD = 40
 
-ENC_NAMES = ["int01", "ints_5_9", "strings", "bools", "floats", "three_classes", "np0d", "np1d", "list1", "series1", "mixed_pairs"]
+ENC_NAMES = ["int01", "ints_5_9", "strings", "bools", "floats", "three_classes", "np0d", "np1d", "list1", "series1", "mixed_pairs",
+             "strings_prefix", "int_vs_float", "mixed_types"]
 JUNK = ["none", "scalar", "string", "vector", "matrix", "frame", "nan"]
 
 
@@ -47,6 +48,15 @@ def encode(enc, t, p, k, rng_state):
         return [t], [p]
     if enc == "series1":
         return pd.Series([t]), pd.Series([p])
+    if enc == "strings_prefix":
+        # labels of unequal length, one a prefix of the other
+        m = {0: "1", 1: "10"}; return m[t], m[p]
+    if enc == "int_vs_float":
+        # an int label against a float prediction: equal only when numerically equal
+        return int(t), (float(t) if t == p else t + 0.5)
+    if enc == "mixed_types":
+        # disagreeing pairs of different Python types, agreeing pairs of the same value
+        return (t, t) if t == p else (t, "other")
     if enc == "mixed_pairs":
         # another pair with the same agreement
         a = (k * 5 + 1) % 4
